@@ -66,6 +66,7 @@ class State:
         s.now = self.now
         s.born = list(self.born)
         s.conds = list(self.conds)
+        s.cur_exc = getattr(self, "cur_exc", None)
         return s
 
     def hyps(self):
@@ -142,6 +143,8 @@ class Contract:
         self.opaque_calendar = kw.pop("opaque_calendar", False)
         self.relational = kw.pop("relational", [])     # [(label, shared-params, requires-src, ensures-src)]
         self.reveal = kw.pop("reveal", [])             # opaque ghost functions expanded in this contract
+        self.on_exit = kw.pop("on_exit", [])           # clauses checked on every sys.exit(code) path (name: exit_code)
+        self.on_raise = kw.pop("on_raise", [])         # clauses checked on every path that leaves by an exception
         self.hide = kw.pop("hide", {})                 # {ghost name: result type}: opaque in this contract only
         self.no_merge = kw.pop("no_merge", [])         # line numbers / True: do not join these `if` branches
         if kw:
@@ -429,6 +432,29 @@ def alloc_axioms(exprs, param_refs=(), with_alloc=True):
 
 
 # ---------------------------------------------------------------------------
+
+EXC_PARENT = {
+    "FileNotFoundError": "OSError", "PermissionError": "OSError", "IsADirectoryError": "OSError",
+    "FileExistsError": "OSError", "OSError": "Exception", "UnicodeDecodeError": "ValueError",
+    "JSONDecodeError": "ValueError", "ValueError": "Exception", "KeyError": "LookupError", "IndexError": "LookupError",
+    "LookupError": "Exception", "AttributeError": "Exception", "TypeError": "Exception", "RuntimeError": "Exception",
+    "ZeroDivisionError": "ArithmeticError", "ArithmeticError": "Exception", "ReportGenerationError": "Exception",
+    "Exception": "BaseException", "SystemExit": "BaseException", "KeyboardInterrupt": "BaseException",
+}
+
+
+def _handler_matches(names, exc):
+    if "*" in names:
+        return True
+    cur = exc
+    seen = 0
+    while cur is not None and seen < 10:
+        if cur in names:
+            return True
+        cur = EXC_PARENT.get(cur, "Exception" if cur not in ("BaseException",) else None)
+        seen += 1
+    return False
+
 
 class Exec:
     """Symbolic execution of one function under one contract."""
@@ -1217,11 +1243,13 @@ class Exec:
         pend = st.pending
         st.pending = []
         none_raised = []
-        for cond, exc in pend:
+        for ent in pend:
+            cond, exc = ent[0], ent[1]
+            extra = list(ent[2]) if len(ent) > 2 else []
             h = st.pc + none_raised + [cond]
             if self.feasible(h):
                 s2 = st.fork()
-                s2.pc = h
+                s2.pc = h + extra
                 s2.conds = s2.conds + none_raised + [cond]
                 s2.trace.append(f"!{exc}")
                 res.append(Outcome("raise", s2, exc=exc))
@@ -1235,6 +1263,10 @@ class Exec:
     def st_Expr(self, s, st):
         if isinstance(s.value, ast.Constant):
             return [Outcome("normal", st)]
+        if isinstance(s.value, ast.Call) and ast.unparse(s.value.func) == "sys.exit":
+            code = self.ev(s.value.args[0], st) if s.value.args else T.mk_int(0)
+            st.env["$exit_code"] = code
+            return self._flush_pending(st, [Outcome("raise", st, exc="SystemExit")])
         self.ev(s.value, st)
         return self._flush_pending(st, [Outcome("normal", st)])
 
@@ -1257,7 +1289,7 @@ class Exec:
         return self._flush_pending(st, [Outcome("return", st, val=v)])
 
     def st_Raise(self, s, st):
-        name = "Exception"
+        name = getattr(st, "cur_exc", None) or "Exception"      # bare `raise` re-raises the handled exception
         if s.exc is not None:
             e = s.exc
             if isinstance(e, ast.Call):
@@ -1534,19 +1566,29 @@ class Exec:
         return m
 
     def st_With(self, s, st):
-        # only contextlib.suppress(...) and plain resource managers with no modelled effect
+        suppress = False
         for item in s.items:
             ce = item.context_expr
             txt = ast.unparse(ce)
-            if not txt.startswith("contextlib.suppress"):
-                raise Unsupported(f"with {txt}", s)
-        outs = self.run_block(s.body, st)
+            if txt.startswith("contextlib.suppress"):
+                suppress = True
+                continue
+            # a resource manager: evaluate the expression (it may raise through its contract), bind the name;
+            # __exit__ is assumed to have no effect on the modelled state (closing a file)
+            v = self.ev(ce, st)
+            if item.optional_vars is not None:
+                self.assign(item.optional_vars, v, st, s)
+        pre = self._flush_pending(st, [Outcome("normal", st)])
         res = []
-        for o in outs:
-            if o.kind == "raise":
-                res.append(Outcome("normal", o.st))
-            else:
-                res.append(o)
+        for o0 in pre:
+            if o0.kind != "normal":
+                res.append(o0)
+                continue
+            for o in self.run_block(s.body, o0.st):
+                if suppress and o.kind == "raise" and o.exc != "SystemExit":
+                    res.append(Outcome("normal", o.st))
+                else:
+                    res.append(o)
         return res
 
     def st_Try(self, s, st):
@@ -1563,11 +1605,14 @@ class Exec:
                         names = [ast.unparse(e).split(".")[-1] for e in h.type.elts]
                     else:
                         names = [ast.unparse(h.type).split(".")[-1]]
-                    if "*" in names or o.exc in names or "Exception" in names or "BaseException" in names:
+                    if _handler_matches(names, o.exc):
                         st2 = o.st
                         if h.name:
                             st2.env[h.name] = T.fresh(T.Ref("Exception"), "exc")
-                        res.extend(self.run_block(h.body, st2))
+                        st2.cur_exc = o.exc
+                        for ho in self.run_block(h.body, st2):
+                            ho.st.cur_exc = None if ho.kind != "raise" else getattr(ho.st, "cur_exc", None)
+                            res.append(ho)
                         handled = True
                         break
                 if not handled:
